@@ -78,7 +78,12 @@ def run(chk, tier):
     import countfail
     ncf = countfail.run(chk, P, ["memattrs.c"])
     chk.floor("R-COUNTFAIL", "count-raising functions with a failing exit", ncf, 2)
-    chk.decided += ['a failed hwloc_memattr_set_value()/register() does not leave a counted but incomplete target, initiator or attribute behind',
+    chk.rule("R-INDEXKIND", "contradiction rule: a set that a function indexes by `A[v]->os_index` is a set of OS indexes; no call of the same function on the same set uses the array position `v` itself as the bit index")
+    import indexkind
+    nik = indexkind.run(chk, P)
+    chk.floor("R-INDEXKIND", "sets indexed by the os_index of array elements", nik, 1)
+    chk.decided += ['the default nodeset is tested and filled by OS index consistently (no array position used as a bit index)',
+                    'a failed hwloc_memattr_set_value()/register() does not leave a counted but incomplete target, initiator or attribute behind',
                     'an initiator location converted from the user structure is complete before it is copied into a new initiator (get_initiators never returns an unset object pointer)',
                     "compaction of targets/initiators after a refresh copies the surviving entry down, never the dropped one over it",
                     "after hwloc_topology_dup() the copy's cached targets/initiators are invalidated (values survive dup and are re-resolved against the copy)",
